@@ -29,7 +29,7 @@ var modeNamePool = []string{"temperature", "spin", "program", "eco", "lock"}
 var modeValuePool = []string{"auto", "slow", "fast", "delicates", "medium", "whites", "on", "off", "v1", "v2"}
 
 func runMode(r *vk.Run) {
-	n := r.Pick(1200, 40000)
+	n := r.Pick(4000, 150000)
 	for i := 0; i < n; i++ {
 		if !r.Mine(i) {
 			continue
@@ -251,9 +251,7 @@ func modeCase(r *vk.Run, idx int) {
 			}
 			req.Relative = &traits.ModeValuesRelative{Values: rel}
 		}
-		if extreme {
-			op += "-extreme-step"
-		}
+		_ = extreme
 		t.log("%s mode_values=%s relative=%v (current %s)", op, valuesString(req.GetModeValues().GetValues()), req.GetRelative().GetValues(), valuesString(cur))
 		sent := proto.Clone(req).(*traits.UpdateModeValuesRequest)
 		var res *traits.ModeValues
@@ -297,7 +295,11 @@ func modeCase(r *vk.Run, idx int) {
 			step, stepped := req.GetRelative().GetValues()[name]
 			switch {
 			case stepped && step != 0:
-				t.viol("wrap", op, "mode %q [%s]: current %q stepped by %d should be %q, is %q", name, strings.Join(available[name], ","), cur[name], step, want[name], gotV)
+				wop := op
+				if step > 1<<20 || step < -(1<<20) {
+					wop += "-extreme-step" // steps near the int32 limits are reported apart from ordinary steps
+				}
+				t.viol("wrap", wop, "mode %q [%s]: current %q stepped by %d should be %q, is %q", name, strings.Join(available[name], ","), cur[name], step, want[name], gotV)
 			case stepped && step == 0:
 				t.viol("zero-step-overrides-absolute", op, "mode %q: relative step 0 with mode_values %q should give %q (sc-api: relative wins only when non-zero), is %q", name, req.GetModeValues().GetValues()[name], want[name], gotV)
 			default:
